@@ -209,7 +209,8 @@ def _host_port(ctx):
         return interp.call(f, [address, default])
     outcomes, _i = extract(world, thunk, setup=_setup({address: 'str'}))
     hosts = ('server01', '1.2.3.4', '::1', '2001:db8::8a2e:370:7334',
-             'fe80::1%eth0')
+             'fe80::1%eth0', 'fe80::1%12', 'fe80::1%25', 'fe80::1%ab1',
+             'host%41')
     addrs = ['', 'server01', '::1', '[::1]', '2001:db8::1']
     for h in hosts:
         esc = '[%s]' % h if _v6(h) else h
@@ -301,7 +302,7 @@ def _params(ctx):
     cls = world.cls(MOD, '_ModifiedSplitResult')
     rep.analysed('netutils._ModifiedSplitResult.params')
     queries = ('', 'a=1', 'a=1&b=2', 'a=1&b=2&a=3', 'a=1&a=2&a=3', 'a=&b',
-               'x=1&y=2&x=3&y=4&x=5')
+               'x=1&y=2&x=3&y=4&x=5', 'a=1&a=2&b=3&a=4')
     for q in queries:
         for collapse in (True, False):
             def thunk(interp):
